@@ -63,9 +63,10 @@ class Formula(BooleanLogics.Formula):
                 if isinstance(phi, str):
                     self._subformula.append(Lang.AtomicProposition(phi))
                 else:
-                    if not isinstance(phi, FormulaClass):
-                        if (isinstance(phi, Lang.Formula) or
-                                not isinstance(phi, Formula)):
+                    if (not isinstance(phi, FormulaClass) or
+                            sys.modules[phi.__module__] is not Lang):
+                        if (not isinstance(phi, Formula) or
+                                sys.modules[phi.__module__] is Lang):
 
                             raise TypeError(err_msg(phi))
 
